@@ -615,6 +615,9 @@ class TorConfig:
         self.unsaved = OrderedDict()
         '''Configuration that has been changed since last save().'''
 
+        self._edit_count = {}
+        '''How often each option was assigned / modified (see save()).'''
+
         self.parsers = {}
         '''Instances of the parser classes, subclasses of TorConfigType'''
 
@@ -805,6 +808,7 @@ class TorConfig:
 
             name = self._find_real_name(name)
             self.unsaved[name] = value
+            self._edit_count[name] = self._edit_count.get(name, 0) + 1
 
         else:
             super(TorConfig, self).__setattr__(name, value)
@@ -939,6 +943,7 @@ class TorConfig:
 
     def mark_unsaved(self, name):
         name = self._find_real_name(name)
+        self._edit_count[name] = self._edit_count.get(name, 0) + 1
         if name in self.config and name not in self.unsaved:
             self.unsaved[name] = self.config[self._find_real_name(name)]
 
@@ -1016,7 +1021,8 @@ class TorConfig:
             # remember what is being sent, so that edits made while the
             # SETCONF is in flight are still pending afterwards
             sent = dict(
-                (k, (v, list(v) if isinstance(v, list) else None))
+                (k, (v, list(v) if isinstance(v, list) else None,
+                     self._edit_count.get(k, 0)))
                 for (k, v) in self.unsaved.items()
             )
             d = self.protocol.set_conf(*args)
@@ -1035,8 +1041,9 @@ class TorConfig:
             return self
         # forget only what was sent and has not been edited since
         unsaved = self.__dict__['unsaved']
-        for (k, (v, snapshot)) in sent.items():
+        for (k, (v, snapshot, count)) in sent.items():
             if k in unsaved and unsaved[k] is v and \
+               self._edit_count.get(k, 0) == count and \
                (snapshot is None or list(v) == snapshot):
                 del unsaved[k]
         return self
